@@ -23,17 +23,41 @@ func fields(names ...string) map[string]bool {
 
 // guard tables ---------------------------------------------------------------------------------
 
-func guardsStates() []*guardSpec {
-	return []*guardSpec{
+func guardsStates(w *World) []*guardSpec {
+	// the parsed-rule cache: under the state's lock, or — if the state has one — under the cache's own mutex
+	// (`cacheLock`, a leaf lock: events read and fill the cache after they have released the state's lock)
+	idxF, linF := fields("IdToFact", "FactIndex", "RuleIndex", "Loaded"), fields("Facts")
+	var own []*guardSpec
+	for _, o := range []struct {
+		name string
+		f    map[string]bool
+	}{{"IndexedState", idxF}, {"LinearState", linF}} {
+		have := map[string]bool{}
+		if st := structOf(w.Named("core", o.name)); st != nil {
+			for k := 0; k < st.NumFields(); k++ {
+				have[st.Field(k).Name()] = true
+			}
+		}
+		if have["cacheLock"] {
+			cf := fields("cachedRules")
+			if have["cacheGen"] {
+				cf["cacheGen"] = true
+			}
+			own = append(own, &guardSpec{Owner: "core." + o.name, Lock: "core." + o.name + ".cacheLock", Fields: cf})
+		} else {
+			o.f["cachedRules"] = true
+		}
+	}
+	return append([]*guardSpec{
 		// state maps and indexes: "write lock around add/rem, read lock around search/find"
-		{Owner: "core.IndexedState", Lock: "core.IndexedState.RWMutex", Fields: fields("IdToFact", "FactIndex", "RuleIndex", "Loaded", "cachedRules")},
-		{Owner: "core.LinearState", Lock: "core.LinearState.RWMutex", Fields: fields("Facts", "cachedRules")},
+		{Owner: "core.IndexedState", Lock: "core.IndexedState.RWMutex", Fields: idxF},
+		{Owner: "core.LinearState", Lock: "core.LinearState.RWMutex", Fields: linF},
 		// Location: control / ReadOnly under the embedded RWMutex, lastUpdated under updatedMutex
 		{Owner: "core.Location", Lock: "core.Location.RWMutex", Fields: fields("control", "ReadOnly")},
 		{Owner: "core.Location", Lock: "core.Location.updatedMutex", Fields: fields("lastUpdated")},
 		// Context: the privilege flag and the property maps copied under RLock by SubContext
 		{Owner: "core.Context", Lock: "core.Context.RWMutex", Fields: fields("privilege", "props", "logProps")},
-	}
+	}, own...)
 }
 
 func guardsSystem() []*guardSpec {
@@ -253,7 +277,7 @@ func runLocksetX(w *World, r *Report, rule string, guards []*guardSpec, extra fu
 }
 
 func ruleLocksetStates(w *World, r *Report) {
-	runLockset(w, r, "LOCKSET", guardsStates(),
+	runLockset(w, r, "LOCKSET", guardsStates(w),
 		"guarded-by: every access to IndexedState.{IdToFact,FactIndex,RuleIndex,Loaded,cachedRules}, LinearState.{Facts,cachedRules}, Location.{control,ReadOnly,lastUpdated}, Context.{privilege,props,logProps} happens with the owning mutex held (exclusively for writes) on every static path, through wrappers (slock/sunlock, lock-bool parameters) and call chains", 40)
 }
 
